@@ -360,13 +360,13 @@ Qed.
 
 
 (* ---- top level ------------------------------------------------------------ *)
-Lemma outside_0_2 : outside 0 2.
+Lemma outside_0_2 : outside 0 5.
 Proof. intros j _. unfold bflag. lia. Qed.
 
 Theorem break_lowering_correct_lemma b s d tr o s' d' :
   run_block b s d tr o s' d' -> plain_block b = true -> o <> OBrk ->
-  forall sl, exists sl', run_block (fst (fst (brk_block 2 0 b))) sl d tr o sl' d'.
+  forall sl, exists sl', run_block (fst (fst (brk_block 5 0 b))) sl d tr o sl' d'.
 Proof.
-  intros R P No sl. destruct (proj2 brk_correct_all _ _ _ _ _ _ _ R P 2 0 outside_0_2 sl) as [sl' [R' _]].
+  intros R P No sl. destruct (proj2 brk_correct_all _ _ _ _ _ _ _ R P 5 0 outside_0_2 sl) as [sl' [R' _]].
   exists sl'. destruct o; try exact R'; congruence.
 Qed.
